@@ -60,6 +60,9 @@ func genText(r *hx.Rand, i int) interface{} {
 		n = 1 + r.Intn(40)
 	}
 	ds := genScript(r, &c05Small, n)
+	if r.Chance(1, 10) {
+		malformDef(r, &ds[r.Intn(len(ds))], false)
+	}
 	v := &varier{r: r, level: r.Intn(3)}
 	mal := -1
 	switch {
